@@ -19,5 +19,11 @@ P("C17", "vn", also_release=True,
   level_text="Exploration: each of the 1024 subsets of heights 1..10 is driven through every operation and argument 0..12, plus random histories over a u64 boundary pool, under a build with overflow checks and debug assertions (and plain release in thorough); the result, full content and representation invariant are compared with a model after every call. Held = no divergence on the executions explored.",
   level_note="Trusted: the ISet model in harness/vn/src/c17.rs (u128 interval arithmetic); crate-private operations reached through pass-through hook wrappers.")
 
+# Entries delivered per property group live in props.d/*.py (same P(...) calls).
+import glob as _glob
+import os as _os
+for _f in sorted(_glob.glob(_os.path.join(_os.path.dirname(_os.path.abspath(__file__)), "props.d", "*.py"))):
+    exec(compile(open(_f).read(), _f, "exec"))
+
 # Properties not claimed, with the reason (everything else not in PROPS gets a default text).
 NOT_CLAIMED = {}
